@@ -434,6 +434,9 @@ func readHeader(scanner *bufio.Scanner) ([]ast.PredicateSym, []int, error) {
 		if numFacts > maxFactsPerPredicate {
 			return nil, nil, fmt.Errorf("for predicate %v: %w", name, ErrTooManyFacts)
 		}
+		if numFacts < 0 {
+			return nil, nil, fmt.Errorf("for predicate %v: negative number of facts %d: %w", name, numFacts, ErrWrongArgument)
+		}
 		preds[i] = ast.PredicateSym{name, arity}
 		predNumFacts[i] = numFacts
 	}
